@@ -21,10 +21,12 @@ pub struct SchedProfile {
     pub requests_w: u32,
     pub spurious_polls: bool,
     pub fast_forward: u32,
+    /// weight of the 'ping storm' step (reboot wait only): pings perpetually due while a request is outstanding
+    pub ping_storm_w: u32,
 }
 impl Default for SchedProfile {
     fn default() -> Self {
-        SchedProfile { steps: 40, max_requests: 6, drop_machine: true, hold_consumer: true, min_wait: (1, 2), offer: (2, 3), requests_w: 3, spurious_polls: true, fast_forward: 2 }
+        SchedProfile { steps: 40, max_requests: 6, drop_machine: true, hold_consumer: true, min_wait: (1, 2), offer: (2, 3), requests_w: 3, spurious_polls: true, fast_forward: 2, ping_storm_w: 0 }
     }
 }
 
@@ -39,6 +41,8 @@ pub struct SchedInfo {
     pub machine_dropped: bool,
     pub all_handles_dropped: bool,
     pub held_steps: usize,
+    /// a request issued in the reboot wait stayed unanswered through this many back-to-back pings
+    pub starved: Option<String>,
 }
 
 pub fn gen_sched_script(t: &mut Tape, p: &SchedProfile) -> Script {
@@ -99,6 +103,11 @@ impl Sched {
         let mut m = Machine::build(&w, false);
         let h = m.ctl.take();
         Sched { w, m, handles: vec![h], reqs: vec![], info: SchedInfo::default(), hold: 0 }
+    }
+
+    fn in_reboot_wait(&self) -> bool {
+        let g = lock(&self.w);
+        phases(&g.log.ops).last() == Some(&Phase::RebootWait)
     }
 
     fn machine_alive(&self) -> bool {
@@ -169,6 +178,7 @@ impl Sched {
             if p.drop_machine && self.machine_alive() && self.info.steps.len() > 4 { 1 } else { 0 }, // 7 drop the machine
             1,                                                              // 8 open two gates before the next poll
             p.fast_forward,                                                 // 9 fast-forward: open every non-timer gate until none is pending
+            if can_req && p.ping_storm_w > 0 && self.in_reboot_wait() { p.ping_storm_w } else { 0 }, // 10 ping storm
         ]);
         match choice {
             0 | 8 => {
@@ -240,6 +250,39 @@ impl Sched {
                 if self.hold == 0 && self.machine_alive() {
                     self.info.steps.push("spurious poll".into());
                     self.m.poll_once();
+                }
+            }
+            10 => {
+                // the policy keeps answering "the next ping is due now": every ping timer is ready the moment it is armed.
+                // A request made meanwhile must still be answered: select! picks among ready branches at random, so it
+                // is overtaken by at most a handful of pings (64 in a row has probability 2^-64)
+                let h = live_handles[t.choose(live_handles.len())];
+                let od = t.flag();
+                self.info.steps.push(format!("ping storm + request handle={h} on_demand={od}"));
+                self.hold = 0;
+                lock(&self.w).ping_storm = true;
+                // let the wait in progress run into the storm first: fire its pending ping timers
+                let pending_now = lock(&self.w).pending_gates();
+                for (id, l) in pending_now {
+                    if matches!(l, GateLabel::TimerUntil(_)) || matches!(l, GateLabel::TimerFor(_, d) if d != REBOOT_RECHECK) {
+                        open_gate(&self.w, id);
+                    }
+                }
+                self.issue(h, od);
+                let rid = self.reqs.len() - 1;
+                let mut rounds = 0;
+                while rounds < 64 && self.reqs[rid].done.is_none() && self.machine_alive() && self.in_reboot_wait() {
+                    self.settle();
+                    // complete whatever exchange (ping) is in flight
+                    let pending = lock(&self.w).pending_gates();
+                    let Some((id, _)) = pending.iter().find(|(_, l)| matches!(l, GateLabel::Http(_))).cloned() else { break };
+                    open_gate(&self.w, id);
+                    rounds += 1;
+                }
+                self.settle();
+                lock(&self.w).ping_storm = false;
+                if rounds >= 64 && self.reqs[rid].done.is_none() {
+                    self.info.starved = Some(format!("request #{rid} issued in the reboot wait was still unanswered after {rounds} back-to-back pings"));
                 }
             }
             9 => {
